@@ -136,7 +136,7 @@ def generate(rng, tier):
             elif f == "name":
                 rec.append(rng.choice(NAMES_S))
             elif f == "status":
-                rec.append(rng.choice([0, 1, 2, 3, 10, 17, 200, 999, None]))
+                rec.append(rng.choice([0, 1, 2, 3, 10, 17, 200, 999, None, "1", "10", "None", "17", 2.0, "2.0"]))   # (look-alikes of other types too)
             elif f == "level":
                 rec.append(rng.choice([7, 10, 17, 3.5, -2, None, 123456789]))
             elif f == "flag":
